@@ -107,8 +107,9 @@ def generate(rseed, tier='quick'):
     elif knobs['faults']:
       cands.append(('validate', 0.1))
     cands.append(('export', 0.25))
-    if knobs['faults'] and ops[q]['as'] == 'path':
-      cands.append(('clobber', 0.3))
+    # ('clobber_file', overwriting the model file between calls, is implemented below but no longer
+    # generated: what "the model" of a path-constructed Quantizer is after the user has overwritten
+    # the file is not fixed by the property, see DESIGN.md 10.5, r8-c14)
     if has_recipe[1 - q]:
       cands.append(('load_other', 0.35))
     if shared_recipes:
@@ -398,6 +399,7 @@ def execute(doc):
         literal = copy.deepcopy(lst)
         if op.get('as_tuple') and isinstance(lst, list):
           lst = tuple(lst)          # any sequence of rule dicts is accepted
+          literal = tuple(literal)  # the reference is given the same form
           owned.add('recipe:tuple@%d' % step, lst, 'recipe')
           rec.probe('recipe_as_tuple')
         try:
